@@ -140,7 +140,7 @@ def lay_out(x, layout):
         y = np.ascontiguousarray(x[::-1, ::-1])[::-1, ::-1]
     else:
         raise AssertionError(layout)
-    if y.shape != x.shape or not np.array_equal(y, x):
+    if y.shape != x.shape or not np.array_equal(y, x, equal_nan=True):
         raise HarnessError(f"layout {layout} changed the entries")
     return y
 
@@ -150,6 +150,8 @@ def as_container(v, container):
 
     if container == "ndarray":
         return v
+    if container == "list":  # array_like: Evolution converts p0 with qu()
+        return v.tolist()
     q = v.view(qu.qarray) if v.ndim == 2 else v
     return q
 
@@ -207,7 +209,8 @@ def make_state(p0, form, layout="C", container="qarray", stype="csr"):
     if form == "sparse":
         return qu.qu(p0, sparse=True, stype=stype)
     if form == "1d":
-        return lay_out(np.array(p0).reshape(-1), layout)
+        v = lay_out(np.array(p0).reshape(-1), layout)
+        return v.tolist() if container == "list" else v
     raise AssertionError(form)
 
 
@@ -344,17 +347,40 @@ class Ctx:
 
 # -- compute callbacks --------------------------------------------------------
 
+class Held:
+    """References to state objects quimb handed out (evo.pt, yielded states, callback arguments) with a copy of
+    their entries at that moment: a reported state must not silently turn into a later one."""
+
+    def __init__(self, cap=40):
+        self.items = []
+        self.cap = cap
+
+    def add(self, obj, where):
+        self.items.append((obj, to_dense(obj), where))
+        if len(self.items) > self.cap:
+            del self.items[1:len(self.items) - self.cap + 1]  # keep the very first (initial) one
+
+    def check(self, info):
+        for k, (obj, copy, where) in enumerate(self.items):
+            now = to_dense(obj)
+            if now.shape != copy.shape or not np.array_equal(now, copy):
+                raise Violation("reported-state-changed", where=where, age=len(self.items) - k, **info)
+
+
 class Recorder:
     """compute= callbacks that record what they are shown."""
 
     def __init__(self, mode):
         self.mode = mode
         self.ham_seen = []
+        self.held = Held()
 
     def rec2(self, t, p):
+        self.held.add(p, "callback")
         return ("r2", float(t), to_dense(p))
 
     def rec3(self, t, p, H):
+        self.held.add(p, "callback")
         return ("r3", float(t), to_dense(p), self._ham_info(t, H))
 
     def tonly(self, t, p):
@@ -457,7 +483,7 @@ def check_entries(ctx, rec, entries, lo, hi, ham_obj, exact_times=None, hfun=Non
 G_METHODS = [("integrate", False), ("integrate", True), ("solve", None), ("expm", None)]
 G_STATES = ["ket", "ket1d", "ket_sp", "dop", "dop_sp"]
 G_HREPS = ["dense", "sparse", "csc", "tuple", "linop", "linop_sparse", "callable", "callable_sparse"]
-G_T0 = [0.0, 0.7, -0.7]
+G_T0 = [0.0, 0.7, -0.7, 2000.0]
 # instance axis: (dimension, sequence id)
 G_INST = [(4, 0), (3, 1), (6, 2), (2, 0)]
 
@@ -492,7 +518,7 @@ def grid_times(q, solve):
     if q == 0:
         return "update", [0.3, 0.3, 1.1]
     if q == 1:
-        return "update", ([0.0, 0.5, -0.8, 2.0] if solve else [0.0, 0.013, 0.5, 2.0])
+        return "update", ([0.0, 0.004, 0.5, -0.8, 2.0] if solve else [0.0, 0.004, 0.013, 0.5, 2.0])
     return "at_times", ([0.25, 0.5, 0.5, 1.75, 0.4, -0.6] if solve else [0.25, 0.5, 0.5, 1.75])
 
 
@@ -519,16 +545,20 @@ def run_grid(case):
     rej = _reject_types()
     first = True  # nothing but the initial state has been reported yet
     try:
+        held = Held()
         evo = qu.Evolution(make_state(p0, form), ham, t0=t0, method=m, **kw)
         ctx.check_time(evo.t, t0)
         ctx.check(evo.pt, t0, "initial")
+        held.add(evo.pt, "initial")
         if mode == "update":
             prev = None
             for t in times:
                 evo.update_to(t)
                 first = False
                 ctx.check_time(evo.t, t, repeated=(prev == t))
-                ctx.check(evo.pt, t, "pt")
+                pt = evo.pt
+                ctx.check(pt, t, "pt")
+                held.add(pt, "pt")
                 prev = t
         else:
             it = evo.at_times(times)
@@ -539,7 +569,9 @@ def run_grid(case):
                 ctx.check_time(evo.t, t, repeated=(prev == t))
                 ctx.check(pt, t, "yield")
                 ctx.check(evo.pt, t, "pt")
+                held.add(pt, "yield")
                 prev = t
+        held.check(info)
     except rej as e:
         # a refusal (at construction or at any request, everything reported before having been right) is how an
         # unsupported combination must end; a documented-supported cell must be served
@@ -558,7 +590,8 @@ L_STATES = ([{"form": "dense", "layout": l, "container": "qarray"} for l in DENS
             + [{"form": "dense", "layout": l, "container": "ndarray"} for l in ("C", "F", "strided")]
             + [{"form": "sparse", "stype": t} for t in ("csr", "csc", "coo", "bsr")]
             + [{"form": "stretch", "stretch": m} for m in ("solve", "expm", "integrate")]
-            + [{"form": "1d", "layout": l} for l in ("C", "strided", "rev")])
+            + [{"form": "1d", "layout": l} for l in ("C", "strided", "rev")]
+            + [{"form": "dense", "layout": "C", "container": "list"}, {"form": "1d", "layout": "C", "container": "list"}])
 L_HAMS = ([("dense", l, "qarray") for l in DENSE_LAYOUTS] + [("dense", "F", "ndarray"), ("dense", "strided", "ndarray")]
           + [(r, "C", "qarray") for r in ("sparse", "csc", "coo", "bsr")]
           + [("tuple", "F", "qarray"), ("tuple", "strided", "qarray"), ("tuple_nd", "F", "qarray"), ("linop", "F", "qarray"),
@@ -604,18 +637,24 @@ def run_layouts(case):
     cls = [f"m={m}" + ("/dopri5" if case["small"] else ""), f"s={sd['kind']}", f"sl={sl}", f"hl={hl}"]
     first = True
     try:
+        held = Held()
         evo = qu.Evolution(sobj, ham, t0=t0, method=m, **kw)
         ctx.check_time(evo.t, t0)
         ctx.check(evo.pt, t0, "initial")
+        held.add(evo.pt, "initial")
         prev = None
         for t in (t0 + 0.3, t0 + 0.3, t0 + 1.1):
             evo.update_to(t)
             first = False
             ctx.check_time(evo.t, t, repeated=(prev == t))
-            ctx.check(evo.pt, t, "pt")
+            pt = evo.pt
+            ctx.check(pt, t, "pt")
+            held.add(pt, "pt")
             prev = t
-        for pt in evo.at_times([t0 + 1.5]):
-            ctx.check(pt, t0 + 1.5, "yield")
+        ys = list(evo.at_times([t0 + 1.5, t0 + 1.9]))
+        for pt, t in zip(ys, (t0 + 1.5, t0 + 1.9)):
+            ctx.check(pt, t, "yield")
+        held.check(info)
     except _reject_types() as e:
         if pin:
             raise Violation("supported-rejected", exc=type(e).__name__, msg=str(e)[:80].replace("\n", " "),
@@ -629,9 +668,10 @@ def run_layouts(case):
 # 2-4. histories of requested times: one machine per method
 # ---------------------------------------------------------------------------
 
-S_DT = st.one_of(st.sampled_from([0.0, 0.0, 1e-3, 0.05, 0.3, 1.0]), st.floats(0.0, 1.5, allow_nan=False))
+S_DT = st.one_of(st.sampled_from([0.0, 0.0, 1e-6, 1e-3, 0.004, 0.05, 0.3, 1.0]), st.floats(0.0, 1.5, allow_nan=False))
 S_X = st.one_of(st.sampled_from([0.0, 0.5, -0.5, 3.0]), st.floats(-4.0, 4.0, allow_nan=False))
-S_T0 = st.one_of(st.sampled_from([0.0, 0.7, -0.7]), st.floats(-2.0, 2.0, allow_nan=False))
+# large absolute times with fine grids: a request must be honoured however small it is relative to |t|
+S_T0 = st.one_of(st.sampled_from([0.0, 0.7, -0.7, 2000.0, -1.0e4]), st.floats(-2.0, 2.0, allow_nan=False))
 BUDGET = 8.0  # bound on ||H|| * (t - t0) for the stepping methods
 
 
@@ -661,7 +701,8 @@ def ham_pinned(hd, method, hrep):
 
 def layout_labels(sd, hd, hrep):
     f = sd["form"]
-    sl = {"dense": f"{sd.get('layout', 'C')}/{sd.get('container', 'qarray')}", "1d": "1d-" + sd.get("layout", "C"),
+    sl = {"dense": f"{sd.get('layout', 'C')}/{sd.get('container', 'qarray')}",
+          "1d": "1d-" + sd.get("layout", "C") + ("/list" if sd.get("container") == "list" else ""),
           "sparse": sd.get("stype", "csr"), "stretch": "after-" + str(sd.get("stretch"))}[f]
     hl = f"{hd.get('layout', 'C')}/{hd.get('container', 'qarray')}" if hrep in ("dense", "tuple", "tuple_nd", "linop", "callable") else hrep
     return sl, hl
@@ -765,10 +806,13 @@ class Hist:
         self.nres = 0
         self.span = 0.0
         self.tmax = self.t0 + BUDGET / max(self.ctx.hnorm, 1e-9)
+        self.held = Held()
         self.evo = self.guard(lambda: qu.Evolution(self.sobj, self.ham, t0=self.t0, method=m, **kw))
         if not self.dead:
             self.ctx.check_time(self.evo.t, self.t0)
-            self.ctx.check(self.evo.pt, self.t0, "initial")
+            pt = self.evo.pt
+            self.ctx.check(pt, self.t0, "initial")
+            self.held.add(pt, "initial")
 
     def guard(self, fn):
         """An unpinned cell may refuse (ends the history); a pinned one must be served."""
@@ -795,6 +839,7 @@ class Hist:
         rep = self.prev is not None and t == self.prev
         self.ctx.check_time(self.evo.t, t, repeated=rep)
         self.ctx.check(reported, t, where)
+        self.held.add(reported, where)
         lo = self.t
         if rep:
             self.nrepeat += 1
@@ -863,6 +908,9 @@ def inv_hist(h):
         return
     # the reported pair (t, pt) stays what the last request produced
     h.ctx.check_time(h.evo.t, h.t)
+    # and everything handed out earlier still holds the entries it was handed out with
+    h.held.check(h.info)
+    h.rec.held.check(h.info)
 
 
 def fin_hist(h):
@@ -870,7 +918,7 @@ def fin_hist(h):
     skind = "ket" if sd["kind"] == "ket" else ("dop-pure" if sd["rank"] == 1 else "dop-mixed")
     sl, hl = layout_labels(sd, h.init["ham"], h.init["hrep"])
     cls = [f"s={skind}", f"form={sd['form']}", f"sl={sl}", f"hl={hl}", f"h={h.init['hrep']}", f"hk={h.init['ham']['kind']}", f"cb={h.init['compute']}",
-           "t0=0" if h.t0 == 0 else "t0!=0", f"m={h.init['method']}"] + (["progbar"] if h.init.get("progbar") else [])
+           "t0=0" if h.t0 == 0 else ("t0=large" if abs(h.t0) > 100 else "t0!=0"), f"m={h.init['method']}"] + (["progbar"] if h.init.get("progbar") else [])
     if h.init.get("small"):
         cls.append("dopri5")
     if h.dead:
@@ -915,6 +963,11 @@ def f_pair(fd):
         return (lambda t: a * t * t), (lambda t: a * t ** 3 / 3.0)
     if name == "const":
         return (lambda t: a + 0.0 * t), (lambda t: a * t)
+    if name == "inv":  # undefined at t=0 (python float division raises there): only legal for t0 > 0
+        return (lambda t: a / float(t) if np.ndim(t) == 0 else a / np.asarray(t, dtype=float)), (lambda t: a * np.log(np.abs(t)))
+    if name == "inv_nan":  # singular at t=0 (inf/nan like ``Hd / t``). Not drawn at random: on a tree that evaluates H(0)
+        # the stepper burns its 100000 step limit (10-130 s per request) before giving up; regression file only
+        return (lambda t: a / np.float64(t) if np.ndim(t) == 0 else a / np.asarray(t, dtype=float)), (lambda t: a * np.log(np.abs(t)))
     raise AssertionError(name)
 
 
@@ -986,7 +1039,7 @@ def s_timedep(draw, tier):
     d = ham["d"]
     return {"ham0": ham, "h1": {"mode": draw(st.sampled_from(["generic", "generic", "commuting"])), "seed": draw(A.seeds),
                                 "norm": draw(st.sampled_from([0.3, 1.0])), "kind": draw(st.sampled_from(HKINDS))},
-            "f": {"name": draw(st.sampled_from(["cos", "cos", "lin", "quad", "const"])), "a": draw(st.sampled_from([1.0, 0.5, -0.7])),
+            "f": {"name": draw(st.sampled_from(["cos", "cos", "lin", "quad", "const", "inv"])), "a": draw(st.sampled_from([1.0, 0.5, -0.7])),
                   "w": draw(st.sampled_from([0.5, 1.3, 3.0]))},
             "state": draw(s_state(d, allow_sparse=True, allow_stretch=False)), "t0": draw(st.sampled_from([0.0, 0.7, -0.7])),
             "dts": draw(st.lists(st.sampled_from([0.0, 1e-3, 0.01, 0.2, 0.5, 1.0]), min_size=1, max_size=4)),
@@ -1012,6 +1065,8 @@ def run_timedep(case):
     else:
         H1 = dense_ham({"d": d, "kind": h1["kind"], "seed": h1["seed"], "norm": h1["norm"]})
     t0 = float(case["t0"])
+    if case["f"]["name"] in ("inv", "inv_nan"):
+        t0 = abs(t0) if t0 != 0 else 0.7  # H(t) = H0 + (a/t) H1 is undefined at t=0: start (and stay) on the positive side
     orc = TimeDepOracle(H0, H1, case["f"], t0, commuting)
     p0 = dense_state(case["state"], d)
     times, t = [], t0
@@ -1027,7 +1082,7 @@ def run_timedep(case):
     sd = case["state"]
     sl, hl = layout_labels(sd, hd, "dense" if case["ret"] == "dense" else case.get("stype", "csr"))
     info = dict(method="integrate", state=sd["kind"], sform=sd["form"], hrep="timedep-" + case["ret"], d=d,
-                stepper="dopri5" if case["small"] else "dop853", slayout=sl, hlayout=hl)
+                stepper="dopri5" if case["small"] else "dop853", slayout=sl, hlayout=hl, f=case["f"]["name"])
     ctx = Ctx(H0, p0, t0, "integrate", info, prop=lambda tt: apply_U(orc.U(tt), p0), hnorm=hbound, rate_extra=wf)
     sparse = case["ret"] == "sparse"
 
@@ -1079,8 +1134,8 @@ def s_callbacks(draw, tier):
     ham = draw(s_ham(2, 12))
     reps = {"integrate": ["dense", "sparse", "linop", "callable"], "solve": ["dense", "sparse", "tuple"], "expm": ["dense", "sparse"]}[method]
     state = draw(s_state(ham["d"], allow_sparse=False))
-    return {"method": method, "ham": ham, "hrep": draw(st.sampled_from(reps)), "state": state, "t0": draw(st.sampled_from([0.0, 0.7, -0.7])),
-            "dts": draw(st.lists(st.sampled_from([0.0, 0.02, 0.3, 0.9]), min_size=1, max_size=4)),
+    return {"method": method, "ham": ham, "hrep": draw(st.sampled_from(reps)), "state": state, "t0": draw(st.sampled_from([0.0, 0.7, -0.7, 2000.0])),
+            "dts": draw(st.lists(st.sampled_from([0.0, 1e-6, 0.004, 0.02, 0.3, 0.9]), min_size=1, max_size=4)),
             "compute": draw(st.sampled_from(["single2", "single3", "dict", "dict1"])), "small": draw(st.booleans()),
             "use_at_times": draw(st.booleans()), "progbar": draw(st.sampled_from([False, False, True]))}
 
@@ -1134,6 +1189,7 @@ def run_callbacks(case):
             if rel_err(shown, to_dense(evo.pt), floor=ctx.n0) > 1e-14:
                 raise Violation("results-not-reported-state", **info)
         lo = t
+    rec.held.check(info)
     return {"nt": True, "cls": [f"m={m}", f"cb={case['compute']}", f"h={hrep}", f"s={sd['kind']}", f"sl={sl}", f"hl={hl}",
                                 "at_times" if it is not None else "update_to"]
             + (["progbar"] if case.get("progbar") else []),
